@@ -168,14 +168,14 @@ func strKeys(m map[string]bool) []string {
 // the same sizing function is called both before and after that store, the load precedes the first call — a value
 // saved after the first run is already the resolved one (auto margins are gone), and the second run is not a re-run.
 func c10SavedBeforeFirstRun(c *core.Check) {
-	r := c.Rule("R16", "restores restore the state before the first run: in html/layout, when a field is stored with a value loaded earlier from the same field and one function is called both before and after that store, the load comes before the first of these calls", 6)
+	r := c.Rule("R16", "restores restore the state before the first run: in html/layout, when a field is stored with a value loaded earlier from the same field and one function is called both before and after that store, the load comes before the first of these calls", 10)
 	savedBeforeFirstRunRule(c, r, "")
 }
 
 // c12PageMarginsRerun (R10): the same rule for the page boxes: the vertical auto margins of an @page rule are
 // recomputed after a min-/max-height clamp only if handleMinMaxHeight restores the margins it saved before the run.
 func c12PageMarginsRerun(c *core.Check) {
-	r := c.Rule("R10", "auto margins of a page are recomputed after a min-/max-height clamp: in handleMinMaxHeight the margins stored back before the second run were loaded before the first (shared with C10.R16)", 2)
+	r := c.Rule("R10", "auto margins of a page are recomputed after a min-/max-height clamp: in handleMinMaxHeight the margins stored back before the second run were loaded before the first (shared with C10.R16)", 4)
 	savedBeforeFirstRunRule(c, r, "handleMinMaxHeight")
 }
 
